@@ -67,8 +67,19 @@ def eval_pred_on(call, text, fn):
 def check_safe_join(ctx, prog, fn_path, floor=True):
     sj = prog.fn(fn_path)
     pushes = sj.calls_to(PUSH)
+    # every call that takes the path being built by `&mut` (push, extend, set_file_name, pop ...)
+    growers = []
+    for c in sj.calls():
+        if not c.args:
+            continue
+        p0 = op_place(c.args[0])
+        if p0 is None or "p" in p0:
+            continue
+        ty = sj.locals[p0["l"]].get("s", "")
+        if ty.startswith("&mut") and "std::path::PathBuf" in ty:
+            growers.append(c)
     if floor:
-        ctx.floor("C17.L2 push sites in safe_join", len(pushes), 1)
+        ctx.floor("C17.L2 sites that grow the joined path in safe_join", len(growers), 1)
     # the returned PathBuf: every `&mut` use must be a push
     ret_roots = set()
     for bb, i, s in sj.all_stmts():
@@ -80,13 +91,13 @@ def check_safe_join(ctx, prog, fn_path, floor=True):
                 ctx.ob("C17.L2.base", "%s|returned path starts from the base argument" % fn_path, ok,
                        "the Some(..) payload originates from %r" % o, sj.where(bb))
     ctx.need(ret_roots or not floor, "C17.L2: no `Some(path)` return found in safe_join")
-    for c in sj.calls():
-        # any other mutator of a PathBuf
-        if c.name.startswith("std::path::PathBuf::") and c.name != PUSH and c.args:
-            mut_self = sj.locals[op_place(c.args[0])["l"]]["s"].startswith("&mut") if op_place(c.args[0]) else False
-            if mut_self:
-                ctx.ob("C17.L2.mutator", "%s|%s" % (fn_path, c.name), False,
-                       "unrecognised mutation of the joined path (only PathBuf::push is modelled)", sj.where(c.bb))
+    for c in growers:
+        # any other mutator of the path: its components are not the guarded segment
+        if c.name != PUSH:
+            ctx.ob("C17.L2.mutator", "%s|%s" % (fn_path, c.name.split("::")[-1]), False,
+                   "the joined path is also changed by %s: the components it appends (or removes) are not the "
+                   "`/`-separated segment that the `..`/hidden/backslash guard inspected, so a `..` can be smuggled "
+                   "in (e.g. behind a backslash)" % c.name, sj.where(c.bb))
     n = 0
     for c in pushes:
         n += 1
